@@ -16,7 +16,7 @@ ANCHORS = ["decaylanguage.dec.dec:DecayModelAliasReplacement._replacement", "dec
            "decaylanguage.dec.dec:DecayModelParamValueReplacement._replacement", "decaylanguage.dec.dec:DecFileParser._dict_raw_model_aliases",
            "decaylanguage.dec.dec:get_definitions", "decaylanguage.dec.dec:get_model_aliases"]
 WORKERS = {"quick": 4, "thorough": 16}
-REQUIRED = {"alias-used-in>=2-blocks": 20, "alias-with-defined-param-used-in>=2-blocks": 10, "alias-used>=2x-in-one-block": 10, "definition-after-use": 20,
+REQUIRED = {"file-constructor:2-part-files": 10, "file-constructor:pathlib-path-arguments": 10, "parsed-with-warnings-as-errors:no-warning-surfaced": 10, "alias-used-in>=2-blocks": 20, "alias-with-defined-param-used-in>=2-blocks": 10, "alias-used>=2x-in-one-block": 10, "definition-after-use": 20,
             "redefinition:Define": 20, "redefinition:ModelAlias": 10, "negated-use": 20, "negated-use-of-negative-value": 5, "plus-prefixed-word-stays": 10,
             "undefined-word-stays": 20, "use-in-copied-table": 10, "use-in-conjugated-table": 10, "define-used>=4x": 10, "expanded-text-parsed": 50,
             "alias-with-photos": 5, "define-unused": 5, "second-parse-same-instance": 20, "user-model-registered": 20, "alias-name-extends-a-published-model-name": 20}
@@ -232,6 +232,23 @@ def check(ctx, stmts, workload="gen"):
         if mech in ("globals:dict_definitions", "globals:dict_model_aliases", "globals:dict_definitions:raised", "globals:dict_model_aliases:raised"):
             ctx.violate(mech, msg, wit)
     ctx.mon("C05.last_definition_reported")
+    twin = ctx.rng.random()
+    if twin < 0.25:
+        # the same statements through the file constructor, given as several files (str or Path), parts not ending in a line end
+        ok4, res4 = ctx.guard("parse-part-files", wit, snapshot.parse_as_part_files, ctx, text, um)
+        if ok4:
+            w4 = {**wit, **res4[2]}
+            for mech, msg in snapshot.compare_tables(res4[0], exp) + [x for x in snapshot.compare_globals(res4[0], exp) if x[0].startswith(("globals:dict_definitions", "globals:dict_model_aliases"))]:
+                ctx.violate("part-files:" + mech, msg, w4)
+    elif twin < 0.45:
+        # a fresh object parsing the same text while warnings are errors: either the warning surfaces, or the tables are the same ones
+        ok5, p5 = ctx.guard("parse-under-error-filter", wit, snapshot.parse_under_error_filter, text, um)
+        if ok5 and p5 is not None:
+            ctx.hit("parsed-with-warnings-as-errors:no-warning-surfaced")
+            for mech, msg in snapshot.compare_tables(p5, exp):
+                ctx.violate("warnings-as-errors:" + mech, msg, wit)
+        elif ok5:
+            ctx.hit("parsed-with-warnings-as-errors:warning-surfaced:not-judged")
     if ctx.rng.random() < 0.35:
         # the same object parsed again (supported; it only warns): uses are expanded again, to the same tables
         import warnings  # noqa: PLC0415
